@@ -294,7 +294,7 @@ def main(tier):
         "queries": total.as_dict(),
         "functions_encoded": encoded,
         "stubs_used": sorted(stubs) + ["deterministic_choice replaced by 'report (key, population, weights)'"],
-        "bounds": "program pairs from the splitter family; field values unbounded within str/int/float/bool/None; "
+        "bounds": "program pairs from the splitter family; field values unbounded within str/int (below CPython's 4300-digit str() limit)/float/bool/None; "
                   "extra kwargs: four concrete names with symbolic/concrete values",
     }
     common.write_evidence(PROP, "translation_validation", coverage,
